@@ -1578,8 +1578,9 @@ impl<'a> Runtime<'a> {
         val
     }
 
-    /// Overwrites a variable slot, returning the old value's pool slot
-    /// before promoting the new value.
+    /// Overwrites a variable slot. The new value is promoted while the old
+    /// value's storage is still live, because it may alias it (`x get x`);
+    /// only then is the old value's pool slot returned.
     fn overwrite_slot(
         slot: &mut Value<'a>,
         val: Value<'a>,
@@ -1588,9 +1589,9 @@ impl<'a> Runtime<'a> {
         frame: &Arena,
     ) {
         if has_frame {
-            let old = mem::replace(slot, Value::Null);
+            let new = val.promote(pool, frame);
+            let old = mem::replace(slot, new);
             unsafe { old.return_to_pool(pool) };
-            *slot = val.promote(pool, frame);
         } else {
             *slot = val;
         }
